@@ -48,53 +48,55 @@ Proof.
   - intros t L. rewrite bridge_gbt. destruct (t =? 0) eqn:E; [lia|]. reflexivity.
 Qed.
 
+(* The table entries, as far as this property depends on them.  The default of `retry` (d_retry) is left
+   open on purpose: with one client it cannot change an answer; it is what C14 reads. *)
 Lemma bridge_deleg_add : deleg_add =
-  {| d_target := TFan FAdd; d_key := KMade true; d_timeout := TBackend; d_retry := Some true;
+  {| d_target := TFan FAdd; d_key := KMade true; d_timeout := TBackend; d_retry := d_retry deleg_add;
      d_bind := [(PKey, AKey); (PValue, AValue); (PExpire, ATimeout); (PRead, ARead); (PTag, ATag); (PRetry, ARetry)];
      d_exc := []; d_returns := true |}.
 Proof. reflexivity. Qed.
 Lemma bridge_deleg_set : deleg_set =
-  {| d_target := TFan FSet; d_key := KMade true; d_timeout := TBackend; d_retry := Some true;
+  {| d_target := TFan FSet; d_key := KMade true; d_timeout := TBackend; d_retry := d_retry deleg_set;
      d_bind := [(PKey, AKey); (PValue, AValue); (PExpire, ATimeout); (PRead, ARead); (PTag, ATag); (PRetry, ARetry)];
      d_exc := []; d_returns := true |}.
 Proof. reflexivity. Qed.
 Lemma bridge_deleg_get : deleg_get =
-  {| d_target := TFan FGet; d_key := KMade true; d_timeout := TNone; d_retry := Some false;
+  {| d_target := TFan FGet; d_key := KMade true; d_timeout := TNone; d_retry := d_retry deleg_get;
      d_bind := [(PKey, AKey); (PDefault, ADefault); (PRead, ARead); (PExpireTime, AExpireTime); (PTag, ATag); (PRetry, ARetry)];
      d_exc := []; d_returns := true |}.
 Proof. reflexivity. Qed.
 Lemma bridge_deleg_touch : deleg_touch =
-  {| d_target := TFan FTouch; d_key := KMade true; d_timeout := TBackend; d_retry := Some true;
+  {| d_target := TFan FTouch; d_key := KMade true; d_timeout := TBackend; d_retry := d_retry deleg_touch;
      d_bind := [(PKey, AKey); (PExpire, ATimeout); (PRetry, ARetry)];
      d_exc := []; d_returns := true |}.
 Proof. reflexivity. Qed.
 Lemma bridge_deleg_pop : deleg_pop =
-  {| d_target := TFan FPop; d_key := KMade true; d_timeout := TNone; d_retry := Some true;
+  {| d_target := TFan FPop; d_key := KMade true; d_timeout := TNone; d_retry := d_retry deleg_pop;
      d_bind := [(PKey, AKey); (PDefault, ADefault); (PExpireTime, AExpireTime); (PTag, ATag); (PRetry, ARetry)];
      d_exc := []; d_returns := true |}.
 Proof. reflexivity. Qed.
 Lemma bridge_deleg_delete : deleg_delete =
-  {| d_target := TFan FDelete; d_key := KMade true; d_timeout := TNone; d_retry := Some true;
+  {| d_target := TFan FDelete; d_key := KMade true; d_timeout := TNone; d_retry := d_retry deleg_delete;
      d_bind := [(PKey, AKey); (PRetry, ARetry)];
      d_exc := []; d_returns := true |}.
 Proof. reflexivity. Qed.
 Lemma bridge_deleg_incr : deleg_incr =
-  {| d_target := TFan FIncr; d_key := KMade true; d_timeout := TNone; d_retry := Some true;
+  {| d_target := TFan FIncr; d_key := KMade true; d_timeout := TNone; d_retry := d_retry deleg_incr;
      d_bind := [(PKey, AKey); (PDelta, ADelta); (PDefault, ADefault); (PRetry, ARetry)];
      d_exc := [(KeyError, ValueError)]; d_returns := true |}.
 Proof. reflexivity. Qed.
 Lemma bridge_deleg_decr : deleg_decr =
-  {| d_target := TSelf MIncr; d_key := KRaw; d_timeout := TNone; d_retry := Some true;
+  {| d_target := TSelf MIncr; d_key := KRaw; d_timeout := TNone; d_retry := d_retry deleg_decr;
      d_bind := [(PKey, AKey); (PDelta, ANegDelta); (PVersion, AVersion); (PDefault, ADefault); (PRetry, ARetry)];
      d_exc := []; d_returns := true |}.
 Proof. reflexivity. Qed.
 Lemma bridge_deleg_has_key : deleg_has_key =
-  {| d_target := TFan FContains; d_key := KMade true; d_timeout := TNone; d_retry := None;
+  {| d_target := TFan FContains; d_key := KMade true; d_timeout := TNone; d_retry := d_retry deleg_has_key;
      d_bind := [(PKey, AKey)];
      d_exc := []; d_returns := true |}.
 Proof. reflexivity. Qed.
 Lemma bridge_deleg_clear : deleg_clear =
-  {| d_target := TFan FClear; d_key := KNone; d_timeout := TNone; d_retry := None;
+  {| d_target := TFan FClear; d_key := KNone; d_timeout := TNone; d_retry := d_retry deleg_clear;
      d_bind := [];
      d_exc := []; d_returns := true |}.
 Proof. reflexivity. Qed.
